@@ -1,5 +1,5 @@
 """Property registry: what each check builds, generates and trusts."""
-from . import gens_sym
+from . import gens_sym, gens_sm2
 
 COMMON_TRUST = [
     "Lean 4.33.0 kernel (+ Mathlib v4.33.0 where a Proofs module imports a Mathlib module)",
@@ -11,7 +11,16 @@ COMMON_TRUST = [
 HOOK_COMMITS = ['212724f']   # /repo commits that add cfg(gm_rs_verif) hooks
 NOT_APPLICABLE = {}
 
+SM2_CONSTS = ['SM2.lean', 'SM2Table.lean']
+
 PROPS = {
+    'C03': dict(gen=gens_sm2.gen_c03, consts=SM2_CONSTS, level='proof', technique='tbd', assumptions=[]),
+    'C04': dict(gen=gens_sm2.gen_c04, consts=SM2_CONSTS, level='proof', technique='tbd', assumptions=[]),
+    'C05': dict(gen=gens_sm2.gen_c05, consts=SM2_CONSTS, level='proof', technique='tbd', assumptions=[]),
+    'C06': dict(gen=gens_sm2.gen_c06, consts=SM2_CONSTS, level='proof', technique='tbd', assumptions=[]),
+    'C11': dict(gen=gens_sm2.gen_c11, consts=SM2_CONSTS, level='proof', technique='tbd', assumptions=[]),
+    'C15': dict(gen=gens_sm2.gen_c15, consts=SM2_CONSTS, level='proof', technique='tbd', assumptions=[]),
+    'C19': dict(gen=gens_sm2.gen_c19, consts=SM2_CONSTS, level='proof', technique='tbd', assumptions=[]),
     'C01': dict(
         gen=gens_sym.gen_c01, consts=['SM3.lean'], level='proof',
         technique='Lean 4 refinement proof (Impl.SM3 = Spec.SM3 for all byte strings) + dumped-constant theorems + differential correspondence real/Impl/Spec',
